@@ -281,6 +281,11 @@ def ev(t, env, W):
             return W.wrap(TWIN[b.adt], b.v)
         if isinstance(b, tuple) and b and b[0] == "tuple" and isinstance(t[2], int):
             return b[1][t[2]]
+        if isinstance(b, tuple) and b and b[0] == "struct":
+            for f, v in b[2]:
+                if f == t[2]:
+                    return v
+            return OPAQUE
         if isinstance(b, BN) and t[2] == "digits" and b.adt in UNSIGNED:
             db = DIGIT_BITS[DIGIT[b.adt]]
             return ("arr", tuple(PI(DIGIT[b.adt], (b.v >> (db * i)) & ((1 << db) - 1)) for i in range(W.n)))
@@ -335,6 +340,8 @@ def ev(t, env, W):
             return (t[2], ev(t[3][0], env, W))
         if adt == "Ordering":
             return {"Less": 255, "Equal": 0, "Greater": 1}[t[2]]
+        if len(t) > 4 and t[4] and len(t[4]) == len(t[3]):
+            return ("struct", adt, tuple((f, ev(x, env, W)) for f, x in zip(t[4], t[3])))
         return OPAQUE
     if k == "TU":
         return ("tuple", tuple(ev(x, env, W) for x in t[1]))
@@ -626,6 +633,13 @@ def _prim_atom(name, label, t, env, W):
         if isinstance(a, tuple) and a and a[0] in ("arr", "str"):
             return len(a[1]) == 0
         return OPAQUE
+    if "rand::distributions::uniform::SampleBorrow" in label and label.split("::<")[0].endswith("::borrow") and len(t[2]) == 1:
+        return ev(t[2][0], env, W)
+    if label.lstrip("?").startswith("rand::Rng::gen::<") and "rng_word" in W.cparams:
+        mm = re.search(r"(BUintD32|BUintD16|BUintD8|BUint|BIntD32|BIntD16|BIntD8|BInt)<N>>$", label)
+        if mm:
+            return W.wrap(mm.group(1), W.cparams["rng_word"](W, mm.group(1)))
+        return OPAQUE
     if (label.startswith("[T]::len") or label == "str::len") and len(t[2]) == 1:
         a = ev(t[2][0], env, W)
         if isinstance(a, tuple) and a and a[0] in ("arr", "str"):
@@ -667,6 +681,18 @@ def _prim_atom(name, label, t, env, W):
         a = ev(t[2][0], env, W)
         if isinstance(a, PI):
             return W.wrap(m2.group(1), a.v)
+        return OPAQUE
+    m2 = re.match(r"^<(BUintD32|BUintD16|BUintD8|BUint)<N> as core::ops::Add<(u8|u16|u32|u64)>>::add$", label)
+    if m2 and len(t[2]) == 2:
+        a, b = ev(t[2][0], env, W), ev(t[2][1], env, W)
+        if isinstance(a, BN) and isinstance(b, PI):
+            return W.wrap(m2.group(1), a.v + b.v)
+        return OPAQUE
+    m2 = re.match(r"^(BUintD32|BUintD16|BUintD8|BUint)<N>::div_rem_digit$", label)
+    if m2 and len(t[2]) == 2:
+        a, b = ev(t[2][0], env, W), ev(t[2][1], env, W)
+        if isinstance(a, BN) and isinstance(b, PI) and b.v != 0:
+            return ("tuple", (W.wrap(m2.group(1), a.v // b.v), PI(b.ty, a.v % b.v)))
         return OPAQUE
     m2 = re.match(r"^<(u8|u16|u32|u64|u128|usize|i8|i16|i32|i64|i128|isize) as core::convert::TryFrom<(BUintD32|BUintD16|BUintD8|BUint)<N>>>::try_from$", label)
     if m2 and len(t[2]) == 1:
@@ -821,7 +847,7 @@ def _descend(label, generic_suffix, t, env, W):
         root = F.find_instance(base, [x.strip() for x in generic_suffix[3:-1].split(", ")])
     else:
         root = F.root_of(label)
-    if root is None or not S.is_wrapper(root, as_root=True):
+    if root is None or F.instances[root]["d"] not in F.bodies or F.instances[root]["k"] != "item":
         return OPAQUE
     tree = S.summary(root)
     if tree is None or tree[0] == "?":
